@@ -51,6 +51,9 @@ func genC02G(seed uint64, tier string) Case {
 			if r.chance(1, 8) {
 				size = int64(200 + r.intn(3000))
 			}
+			if r.chance(1, 12) {
+				size = int64(16000 + r.intn(20000)) // a record that fills a storage block on its own
+			}
 			c.Ops = append(c.Ops, Op{K: "set", A: []int64{key, uniq, size}})
 		case 1:
 			c.Ops = append(c.Ops, Op{K: "del", A: []int64{key}})
@@ -230,8 +233,20 @@ func runC02G(t *testing.T, c Case) (res Result) {
 	for _, cu := range cuts {
 		j, torn := cu.j, cu.torn
 		nDur, nMax := 0, 0
+		// image j is a legal outcome of a crash at any moment before the next fsync at or after operation j completes
+		// (everything after the last completed fsync can be lost): what the API had made durable by then must be in it
+		kCrash := nextFsync(log, j)
+		// A request that empties the swamp makes the engine remove the file, and a removal is never followed by an
+		// fsync: if it is not part of the image, the file as last synced before it is a legal outcome whatever the API
+		// answered afterwards, so the crash is taken to happen before that removal.
+		for r := j; r < kCrash; r++ {
+			if (log[r].Kind == simdisk.OpRemove || log[r].Kind == simdisk.OpRemoveAll) && strings.Contains(log[r].Path, ".hyd") {
+				kCrash = r
+				break
+			}
+		}
 		for _, d := range durs {
-			if d.logAt <= j && d.n > nDur {
+			if d.logAt <= kCrash && d.n > nDur {
 				nDur = d.n
 			}
 		}
@@ -239,7 +254,7 @@ func runC02G(t *testing.T, c Case) (res Result) {
 			// write interval 0: an acknowledged Set was written and fsynced before it was answered, together with
 			// everything that was pending (earlier deletes included). A Delete/Shift itself only queues its delete
 			// entry: it becomes durable with the next flush, not with its acknowledgement.
-			if wi == 0 && !e.del && e.acked >= 0 && e.acked <= j && i+1 > nDur {
+			if wi == 0 && !e.del && e.acked >= 0 && e.acked <= kCrash && i+1 > nDur {
 				nDur = i + 1
 			}
 			if e.invoke <= j {
